@@ -26,8 +26,11 @@ pub use crate::work::{BuildState, Options, StateCounts};
 use std::sync::{Condvar, Mutex};
 
 /// Parse depfile text (without trailing nul) with the real parser.
-/// Ok: (target, deps) in map order.  Err: the formatted parse error.
-pub fn depfile_parse(text: &[u8]) -> Result<Vec<(String, Vec<String>)>, String> {
+/// Ok: (target, deps) in map order.  Err: (message, byte offset, formatted error or the
+/// panic message of `format_parse_error`).
+pub fn depfile_parse(
+    text: &[u8],
+) -> Result<Vec<(String, Vec<String>)>, (String, usize, Result<String, String>)> {
     let mut buf = text.to_vec();
     buf.push(0);
     let mut scanner = crate::scanner::Scanner::new(&buf);
@@ -36,7 +39,22 @@ pub fn depfile_parse(text: &[u8]) -> Result<Vec<(String, Vec<String>)>, String> 
             .iter()
             .map(|(k, v)| (k.to_string(), v.iter().map(|s| s.to_string()).collect()))
             .collect()),
-        Err(err) => Err(scanner.format_parse_error(std::path::Path::new("depfile"), err)),
+        Err(err) => {
+            let (msg, ofs) = {
+                let (m, o) = err.verif_parts();
+                (m.to_string(), o)
+            };
+            let formatted = std::panic::catch_unwind(std::panic::AssertUnwindSafe(|| {
+                scanner.format_parse_error(std::path::Path::new("depfile"), err)
+            }))
+            .map_err(|e| {
+                e.downcast_ref::<String>()
+                    .cloned()
+                    .or_else(|| e.downcast_ref::<&str>().map(|s| s.to_string()))
+                    .unwrap_or_default()
+            });
+            Err((msg, ofs, formatted))
+        }
     }
 }
 
